@@ -20,7 +20,7 @@ RULE = (
     "unicode, unsorted parameter names x N in [1,50], d in [1,5]; (history) SMCHistory / FlowHistory with generated series "
     "(python floats, namespace scalars, per-dimension arrays) and 0-4 stored populations; (transform) every transform class, "
     "fitted and unfitted, generated bounds / options; (flow) ZukoFlow / FlowJax, default and non-default constructor options, "
-    "trained 0-1 epochs; (config) recursive dictionaries of None, {}, nested dicts, string lists, ints, floats, bools, numpy "
+    "trained 0-1 epochs, saved twice; (config) recursive dictionaries of None, {}, nested dicts, string lists, ints, floats, bools, numpy "
     "scalars and arrays; (aspire) Aspire.config_dict() of generated constructor arguments saved by sample_posterior and rebuilt "
     "by resume_from_file. Oracle = observational equality: values bitwise for same-width arrays, parameter order, namespace, "
     "dtype, None-vs-present, beta; series and populations; forward / inverse of transforms on a probe grid (bitwise); "
@@ -83,7 +83,7 @@ def _case(draw):
                 "beta": draw(st.sampled_from([None, 0.0, 0.5, 1.0])), "evidence": draw(st.sampled_from([None, -3.25])), "seed": seed}
     if part == "history":
         return {"part": part, "kind": draw(st.sampled_from(["smc", "smc", "flow"])), "n_it": draw(st.integers(0, 6)),
-                "n_pops": draw(st.integers(0, 4)), "ns": draw(st.sampled_from(NS)), "width": draw(st.sampled_from(["float32", "float64"])),
+                "n_pops": draw(st.one_of(st.integers(0, 4), st.integers(0, 14))), "ns": draw(st.sampled_from(NS)), "width": draw(st.sampled_from(["float32", "float64"])),
                 "scalar_kind": draw(st.sampled_from(["float", "xp", "np"])), "autocorr": draw(st.booleans()), "d": draw(st.integers(1, 3)), "seed": seed}
     if part == "transform":
         d = draw(st.integers(1, 4))
@@ -421,7 +421,12 @@ def _flow(case, ctx, h5, labels):
         pass
     f.save(h5, "flow")
     r = Flow.load(h5, "flow")
+    # the same object saved again (e.g. checkpoint file, then results file) must give an equally complete copy
+    f.save(h5, "flow_again")
+    r_again = Flow.load(h5, "flow_again")
     if not case["trained"] and case["affine"]:
+        if type(r_again.data_transform) is not type(f.data_transform):
+            ctx.fail("flow:second-save", "a second save of the same flow object lost its data transform", case)
         return False  # an unfitted affine part cannot be evaluated; saving and reloading must simply work
     if not case["trained"]:
         f.fit_data_transform(fxp.asarray(data, dtype=f.dtype)) if False else None
@@ -432,6 +437,10 @@ def _flow(case, ctx, h5, labels):
         ctx.fail("flow:log_prob", f"log_prob differs after reload: {a[:3]!r} vs {b[:3]!r}", case)
     if str(r.dtype) != str(f.dtype):
         ctx.fail("flow:dtype", f"dtype {r.dtype!r} != {f.dtype!r}", case)
+    c = env.to_np(r_again.log_prob(probe)).astype(np.float64)
+    if type(r_again.data_transform) is not type(f.data_transform) or a.shape != c.shape or not np.allclose(a, c, rtol=1e-6, atol=1e-6, equal_nan=True):
+        ctx.fail("flow:second-save", f"a second save of the same flow object reloads differently (data transform "
+                                     f"{type(r_again.data_transform).__name__}, log_prob {c[:3]!r} vs {a[:3]!r})", case)
     return True
 
 
